@@ -190,7 +190,9 @@ impl<F: AsFd, E> Generic<F, E> {
     /// (token and poller are remembered and forgotten together)
     open spec fn wf(&self) -> bool { self.has_file() && (self.tok() is Some <==> self.has_poller()) }
     open spec fn registered(&self) -> bool { self.tok() is Some }
-    open spec fn register_req(&self) -> bool { self.wf() && !self.registered() }
+    /// (from the property, like the other two: `enable()` of a source that is not disabled is accepted by the loop, and a
+    /// Generic that was never unregistered can be inserted again -- a registration is not presupposed to be absent)
+    open spec fn register_req(&self) -> bool { self.wf() }
     /// the poller/token are recorded only after a successful registration (C15)
     open spec fn register_ens(o: &Self, n: &Self, ok: bool) -> bool {
         &&& n.wf()
